@@ -5,4 +5,5 @@ import DiffxVerif.Properties.C05
 #print axioms Diffx.C05.C05_load_content_opts
 #print axioms Diffx.C05.C05_load_errors
 #print axioms Diffx.C05.C05_load_no_other
+#print axioms Diffx.C05.C05_load_no_other_records
 #print axioms Diffx.C05.C06_unknown_option_witness
